@@ -37,6 +37,7 @@ EXPLANATION = (
 RULE_KINDS = {
     "layout/format-table": "structural", "name/label-length-limit": "structural", "name/pointer-offset-limit": "structural", "equality/decoded-fields-compared": "structural",
     "registry/": "structural",
+    "layout/buffer-loop-until-empty": "structural",      # while buf.tell() < len(data): normal form remaining >= 1
     "layout/end-slice-count-nonzero": "structural",      # x[-n:] under a dominating n != 0 wherever the class treats 0 as a value of n
     "roundtrip/a6-prefix-lengths": "finite-exhaustive",  # the only record whose field lengths are a function of a one-octet field: all 129 values evaluated
     "*": "bounded",       # interpreted round trips on the enumerated messages, judged by the checker's own parser
@@ -592,6 +593,32 @@ def check_edns(ctx, w: World):
                 if wire != want:
                     bad = f"the OPT record with three options is written as {_short(wire)}; RFC 6891 6.1.2 layout is {_short(want)}"
         ctx.check(bad is None, "roundtrip/edns", Q + "._OPTHeader | encode/decode with options", bad or "")
+        # every sequence of up to three options with 0, 1 or 5 data octets: empty options first, in the middle and LAST
+        import itertools as _it
+        badg, n_g = None, 0
+        for n_opts in (1, 2, 3):
+            for lens in _it.product((0, 1, 5), repeat=n_opts):
+                n_g += 1
+                options = [Inst(w.C("_OPTVariableOption"), code=3 + i, data=bytes(range(1, 1 + ln))) for i, ln in enumerate(lens)]
+                hdr = Inst(w.C("_OPTHeader"), udpPayloadSize=4096, extendedRCODE=0, version=0, dnssecOK=False, options=options)
+                buf = io.BytesIO()
+                k, r = w.run("_OPTHeader.encode", lambda: ev.method(hdr, "encode", [buf, None]))
+                if k != "value":
+                    badg = badg or f"option data lengths {lens}: encode raises {r}"
+                    continue
+                wire = buf.getvalue()
+                rdata = wire[11:]
+                want_rdata = b"".join(struct.pack(">HH", 3 + i, ln) + bytes(range(1, 1 + ln)) for i, ln in enumerate(lens))
+                if rdata != want_rdata:
+                    badg = badg or f"option data lengths {lens}: RDATA {_short(rdata)} differs from the RFC 6891 layout {_short(want_rdata)}"
+                    continue
+                k2, o2 = w.run("_OPTHeader()", lambda: ev.construct(w.C("_OPTHeader"), [], {}))
+                k3, r3 = w.run("_OPTHeader.decode", lambda: ev.method(o2, "decode", [io.BytesIO(wire)]))
+                d = f"decode raises {r3}" if k3 != "value" else w.diff(hdr, o2)
+                if d:
+                    got = [len(o.fields.get("data", b"")) for o in (o2.fields.get("options") or [])] if k3 == "value" else None
+                    badg = badg or f"options with data lengths {lens} decode as options with data lengths {got}: {d}"
+        ctx.check(badg is None, "roundtrip/opt-option-grid", Q + "._OPTHeader | <up to three options of 0 / 1 / 5 data octets>", badg or "", detail=f"{n_g} option sequences")
 
 
 _ROUNDTRIP_CASES = {
@@ -872,6 +899,65 @@ def check_end_slices(ctx, mod, consts):
         ctx.note("layout/end-slice-count-nonzero: no slice counted from the end in any encode/decode pair")
 
 
+def check_buffer_loops(ctx, mod, consts):
+    """A decoder that walks a byte buffer of known length item by item (`while buf.tell() < total`) must go on while ANY byte remains: in linear normal
+    form the loop test is  total - buf.tell() >= 1.  A larger constant stops with bytes left over - an item shorter than that constant in last position
+    (an OPT option without data is 4 octets) is silently dropped, and what was encoded no longer decodes to itself."""
+    from sa.astx import call_name, lincmp
+    from sa.props._lib_g import expand, single_defs
+    classes = {c.name: c for c in mod.tree.body if isinstance(c, ast.ClassDef)}
+    n_loops = 0
+    for c in classes.values():
+        for f in methods(c).values():
+            loops = [x for x in ast.walk(f) if isinstance(x, ast.While) and any(isinstance(y, ast.Call) and isinstance(y.func, ast.Attribute) and y.func.attr == "tell" for y in ast.walk(x.test))]
+            if not loops:
+                continue
+            defs = single_defs(f)
+            for lp in loops:
+                test = expand(lp.test, defs)
+
+                class K(ast.NodeTransformer):      # <Class>.<constant> / self.<constant> -> its value
+                    def visit_Attribute(self, node):
+                        if isinstance(node.value, ast.Name) and (node.value.id in classes or node.value.id in ("self", "cls")):
+                            owner = classes.get(node.value.id, c)
+                            v = class_const(mod, owner, node.attr, consts)
+                            if isinstance(v, (int, str)) and not isinstance(v, bool):
+                                return ast.Constant(value=v)
+                        return self.generic_visit(node)
+                test = ast.fix_missing_locations(K().visit(test))
+                fm = lincmp(test, consts)
+                cons = f"{Q}.{c.name}.{f.name} | while {src(lp.test)}"
+                if fm is None:
+                    ctx.note(f"layout/buffer-loop-until-empty: {cons}: test not linear; clause left to the evaluated option grid")
+                    continue
+                terms = dict(fm[0])
+                tells = [t for t in terms if t.endswith(".tell()")]
+                others = [t for t in terms if not t.endswith(".tell()")]
+                if len(tells) != 1 or len(others) != 1 or terms[tells[0]] != -1 or terms[others[0]] != 1:
+                    ctx.note(f"layout/buffer-loop-until-empty: {cons}: not of the form total - position >= k; not judged")
+                    continue
+                bufname = tells[0][: -len(".tell()")]
+                total = others[0]
+                # `total` must be the length of what the buffer was made from:  buf = BytesIO(E) ... total == len(E)
+                bdef = defs.get(bufname)
+                if bdef is None:
+                    try:
+                        bdef = ast.parse(bufname, mode="eval").body      # the buffer local was already replaced by its definition
+                    except SyntaxError:
+                        bdef = None
+                made_from = src(bdef.args[0]) if isinstance(bdef, ast.Call) and call_name(bdef) in ("BytesIO", "io.BytesIO") and len(bdef.args) == 1 else None
+                if made_from is None or total != f"len({made_from})":
+                    ctx.note(f"layout/buffer-loop-until-empty: {cons}: `{total}` not recognised as the length of the buffer `{bufname}`; not judged")
+                    continue
+                n_loops += 1
+                k = fm[1]
+                ctx.check(k == 1, "layout/buffer-loop-until-empty", cons,
+                          f"the loop goes on only while at least {k} octets remain (normal form {total} - {tells[0]} >= {k}): "
+                          + ("an item of fewer octets in last position is left undecoded - decode(encode(x)) loses it" if k > 1 else "it runs once more at the end of the buffer"))
+    if not n_loops:
+        ctx.note("layout/buffer-loop-until-empty: no `while buffer.tell() < length` loop recognised")
+
+
 def check_name_bounds_static(ctx, mod, consts):
     """Name.encode: the length byte and the pointer are written only under guards that keep them inside the format (dominance + linear normal form)."""
     from sa.astx import call_name, lincmp, walk_local
@@ -1010,6 +1096,8 @@ def check(ctx):
         check_name_bounds_static(ctx, mod, consts)
     with ctx.section("structural: slices counted from the end"):
         check_end_slices(ctx, mod, consts)
+    with ctx.section("structural: buffer loops"):
+        check_buffer_loops(ctx, mod, consts)
     with ctx.section("structural: decoded fields compared"):
         check_decoded_fields_static(ctx, mod, consts)
     w = World(ctx, mod, consts)
@@ -1040,6 +1128,10 @@ _OFFSET_GUARD = ("                    offset = strio.tell() + Message.headerSize
                  "                    # written further into the message cannot be referred to.\n                    if offset < 0x4000:\n                        compDict[name] = offset\n")
 
 MUTANTS = [
+    # the option walk goes on while any octet remains
+    Mutant("option-walk-needs-one-data-octet-beyond-the-header", DNS, "            while optionsBytes.tell() < optionsBytesLength:\n", "            while optionsBytes.tell() + 4 < optionsBytesLength:\n", expect_rule="layout/buffer-loop-until-empty"),
+    Mutant("option-walk-stops-at-the-last-option-header-via-a-counter", DNS, "            while optionsBytes.tell() < optionsBytesLength:\n", "            left = optionsBytesLength\n            while left > 4:\n", more=[(DNS, "                options.append(o)\n", "                options.append(o)\n                left = optionsBytesLength - optionsBytes.tell()\n")],
+           expect_rule="roundtrip/opt-option-grid"),
     Mutant("label-written-by-a-static-helper-without-the-guard", DNS, "            if ind > 63:\n                # The two high bits of the length byte are reserved (they mark\n                # a compression pointer).\n                raise ValueError(f\"DNS label longer than 63 bytes: {label!r}\")\n            strio.write(_ord2bytes(ind))\n            strio.write(label)\n", "            self._emitLabel(strio, label)\n", more=[(DNS, "    def decode(self, strio, length=None):\n        \"\"\"\n        Decode a byte string into this Name.\n", "    @staticmethod\n    def _emitLabel(out, piece):\n        size = len(piece)\n        out.write(_ord2bytes(size))\n        out.write(piece)\n\n    def decode(self, strio, length=None):\n        \"\"\"\n        Decode a byte string into this Name.\n")], expect_rule="name/label-length-limit"),
     Mutant("name-decode-sentinel-iterator-stops-at-one-byte-labels", DNS, "        visited = set()\n        self.name = b\"\"\n        off = 0\n        while 1:\n            l = ord(readPrecisely(strio, 1))\n            if l == 0:\n                if off > 0:\n                    strio.seek(off)\n                return\n            if (l >> 6) == 3:\n                new_off = (l & 63) << 8 | ord(readPrecisely(strio, 1))\n                if new_off in visited:\n                    raise ValueError(\"Compression loop in encoded name\")\n                visited.add(new_off)\n                if off == 0:\n                    off = strio.tell()\n                strio.seek(new_off)\n                continue\n            label = readPrecisely(strio, l)\n            if self.name == b\"\":\n                self.name = label\n            else:\n                self.name = self.name + b\".\" + label\n", "        visited = set()\n        self.name = b\"\"\n        off = 0\n\n        def nextByte():\n            return ord(readPrecisely(strio, 1))\n\n        for l in iter(nextByte, 1):\n            if (l >> 6) != 3:\n                label = readPrecisely(strio, l)\n                self.name = label if self.name == b\"\" else self.name + b\".\" + label\n                continue\n            new_off = (l & 63) << 8 | nextByte()\n            if new_off in visited:\n                raise ValueError(\"Compression loop in encoded name\")\n            visited.add(new_off)\n            if off == 0:\n                off = strio.tell()\n            strio.seek(new_off)\n        if off > 0:\n            strio.seek(off)\n", expect_rule=None),
     Mutant("sections-chained-in-the-wrong-order", DNS, "        for q in self.queries:\n            q.encode(body_tmp, compDict)\n        for q in self.answers:\n            q.encode(body_tmp, compDict)\n        for q in self.authority:\n            q.encode(body_tmp, compDict)\n        for q in self.additional:\n            q.encode(body_tmp, compDict)\n",
@@ -1111,6 +1203,8 @@ MUTANTS = [
 ]
 
 SILENT = [
+    Silent("option-walk-test-written-as-remaining-octets", DNS, "            while optionsBytes.tell() < optionsBytesLength:\n", "            while optionsBytesLength - optionsBytes.tell() >= 1:\n"),
+    Silent("option-walk-test-flipped", DNS, "            while optionsBytes.tell() < optionsBytesLength:\n", "            while not optionsBytesLength <= optionsBytes.tell():\n"),
     # the label write (with its guard) in a private static helper; the decode loop driven by iter(callable, sentinel) with a local closure
     Silent("label-written-by-a-static-helper-holding-the-guard", DNS, "            if ind > 63:\n                # The two high bits of the length byte are reserved (they mark\n                # a compression pointer).\n                raise ValueError(f\"DNS label longer than 63 bytes: {label!r}\")\n            strio.write(_ord2bytes(ind))\n            strio.write(label)\n", "            self._emitLabel(strio, label)\n", more=[(DNS, "    def decode(self, strio, length=None):\n        \"\"\"\n        Decode a byte string into this Name.\n", "    @staticmethod\n    def _emitLabel(out, piece):\n        size = len(piece)\n        if size > 63:\n            raise ValueError(f\"DNS label longer than 63 bytes: {piece!r}\")\n        out.write(_ord2bytes(size))\n        out.write(piece)\n\n    def decode(self, strio, length=None):\n        \"\"\"\n        Decode a byte string into this Name.\n")]),
     Silent("name-decode-loop-over-a-sentinel-iterator", DNS, "        visited = set()\n        self.name = b\"\"\n        off = 0\n        while 1:\n            l = ord(readPrecisely(strio, 1))\n            if l == 0:\n                if off > 0:\n                    strio.seek(off)\n                return\n            if (l >> 6) == 3:\n                new_off = (l & 63) << 8 | ord(readPrecisely(strio, 1))\n                if new_off in visited:\n                    raise ValueError(\"Compression loop in encoded name\")\n                visited.add(new_off)\n                if off == 0:\n                    off = strio.tell()\n                strio.seek(new_off)\n                continue\n            label = readPrecisely(strio, l)\n            if self.name == b\"\":\n                self.name = label\n            else:\n                self.name = self.name + b\".\" + label\n", "        visited = set()\n        self.name = b\"\"\n        off = 0\n\n        def nextByte():\n            return ord(readPrecisely(strio, 1))\n\n        for l in iter(nextByte, 0):\n            if (l >> 6) != 3:\n                label = readPrecisely(strio, l)\n                self.name = label if self.name == b\"\" else self.name + b\".\" + label\n                continue\n            new_off = (l & 63) << 8 | nextByte()\n            if new_off in visited:\n                raise ValueError(\"Compression loop in encoded name\")\n            visited.add(new_off)\n            if off == 0:\n                off = strio.tell()\n            strio.seek(new_off)\n        if off > 0:\n            strio.seek(off)\n"),
